@@ -184,6 +184,9 @@ var styles = []shadow.StyleD{
 
 const nBaseStyles = 14
 
+// a style whose underline is requested through the attribute mask
+var styleULViaAttr = shadow.StyleD{Fg: tcell.ColorRed, Attrs: tcell.AttrBold, UL: 1, ULViaAttr: true}
+
 type scenario struct {
 	name   string
 	w, h   int
@@ -191,6 +194,8 @@ type scenario struct {
 	dq, dt int
 	pro    []op // prologue: applied to every fresh instance (a non-initial start state)
 }
+
+func init() { styles = append(styles, styleULViaAttr) }
 
 func scenarios() []scenario {
 	var out []scenario
@@ -211,7 +216,7 @@ func scenarios() []scenario {
 		for si := nBaseStyles; si < len(styles); si++ {
 			ops = append(ops, op{kind: "set", x: 0, y: 0, r: 'a', st: si})
 		}
-		ops = append(ops, show)
+		ops = append(ops, op{kind: "set", x: 0, y: 0, r: 'a', st: len(styles) - 1}, show)
 		out = append(out, scenario{"F-style-fields-2x1", 2, 1, ops, 4, 5, nil})
 	}
 	{ // W3: wide runes at the end of a row that is not the last one (what they cover ends at the row's end)
@@ -1108,6 +1113,8 @@ func familyOf(c *config) string {
 		return "insert-char-corner"
 	case c.caps.Colors == 0:
 		return "mono"
+	case c.caps.Colors == 88:
+		return "colour88"
 	}
 	return "colour"
 }
